@@ -468,6 +468,9 @@ def _remove_stale_tmpdirs(max_age=2 * 3600):
 
 def main(argv):
     which = argv[0]
+    # pre-empt threads 50x more often than the default 5 ms: races between pushers and the reactor thread that
+    # need a switch inside a few bytecodes get a real chance (shapes the schedule only)
+    sys.setswitchinterval(1e-4)
     out = os.fdopen(os.dup(1), "w")
     os.dup2(2, 1)
     sys.stdout = sys.stderr
